@@ -186,6 +186,14 @@ func c15Exchanges(e *vh.Env, c c15Case) []c15Ex {
 			add(fmt.Sprintf("near cap %d one write", n), "GET", "gzip", true, body("application/json", n, true, "cl", 1))
 			add(fmt.Sprintf("near cap %d chunked 40 writes", n), "GET", "gzip", true, body("application/json", n, true, "chunked", 40))
 		}
+		for _, st := range []int{206, 404, 500} {
+			sc := body("application/json", c15Cap+100000, true, "chunked", 30)
+			sc.Status = st
+			add(fmt.Sprintf("near cap status %d chunked 30 writes", st), "GET", "gzip", true, sc)
+		}
+		one := body("application/json", c15Cap+5, true, "cl", 1)
+		one.Status = 201
+		add("near cap status 201 one write", "GET", "gzip", true, one)
 	}
 	return xs
 }
